@@ -1,12 +1,14 @@
 """C13 — ray casting: accelerated queries equal exhaustive ones and match exact geometry."""
 import collections
+import math
 
 PROP = "C13"
-LEAN_MODS = ["Cte.Props.C13", "Cte.Props.C13Poly"]
+LEAN_MODS = ["Cte.Props.C13", "Cte.Props.C13Poly", "Cte.Props.C13Reveal"]
 HARNESS = "c13"
 N = {"quick": 150, "thorough": 3000}
 CORRESPONDENCES = ["BVH answer per ray on sets of boxes (sizes 0..200, duplicates, coinciding centres, flat boxes; leaf sizes 1,2,8,30)",
-                   "ray-polygon hit/miss and hit parameter (star-shaped polygons with 3..12 corners, random poses)"]
+                   "ray-polygon hit/miss and hit parameter (star-shaped polygons with 3..12 corners, random poses)",
+                   "global corners of the reveal surfaces of a set-back window (shades_for_setback) = Place.reveals on the wall pose as (cos, sin) pairs"]
 # the model's polygon test is proved to be the even-odd rule in exact arithmetic (pip_eq_evenodd, ray_hit_iff):
 # a disagreement outside the exclusion zone is a failing input of the property itself
 SPEC_FAMILIES = (CORRESPONDENCES[1],)
@@ -55,6 +57,17 @@ def compare(case, out):
                 if abs(h - mh) > 1e-3 * max(1.0, abs(mh)):
                     res.append((CORRESPONDENCES[1], f"ray {i}: hit parameter impl={h} model={mh}"))
         return res[:3]
+    if op == "reveals":
+        got = case["impl"].get("reveals_global", [])
+        want = out.get("reveals", [])
+        _stats["reveal_models_compared"] += 1
+        if len(got) != len(want):
+            return [(CORRESPONDENCES[-1], f"{len(got)} reveal surfaces generated, the model of shades_for_setback gives {len(want)}")]
+        for k, (g, w) in enumerate(zip(got, want)):
+            d = max(min(math.dist(p, q) for q in w) for p in g) if g and w else 1.0
+            if d > 2e-3:
+                return [(CORRESPONDENCES[-1], f"reveal {k}: a corner of the generated surface is {d:.4f} m from the model's ({[round(c, 3) for c in g[0]]} vs {[round(c, 3) for c in w[0]]})")]
+        return []
     return res
 
 
